@@ -123,6 +123,27 @@ func C03GenTerms(t *rapid.T, n int, cheap, even bool) []C03Term {
 		}
 		terms = append(terms, tm)
 	}
+	// Scalar-size PROFILE of the whole call (one term in eight calls): the
+	// multiscalar routines may size their work by the longest scalar of the call,
+	// so "every scalar is short" is a class of its own that a mix of edge-case
+	// scalars never produces (one full-size scalar restores the full-size path).
+	// All scalars get the same byte length n (multiples of the Pippenger
+	// windows, 6 and 7 bits, included), most with the top bit of byte n-1 set.
+	if n > 0 && rapid.IntRange(0, 7).Draw(t, "profile") == 0 {
+		nb := rapid.SampledFrom([]int{1, 2, 3, 6, 7, 8, 9, 12, 14, 15, 16, 18, 21, 24, 27, 28, 30, 31}).Draw(t, "shortbytes")
+		for i := range terms {
+			b := make([]byte, 32)
+			copy(b, UniformBytes(t, nb, "short"))
+			switch rapid.IntRange(0, 3).Draw(t, "shorttop") {
+			case 0:
+			case 1:
+				b[nb-1] = 0xff
+			default:
+				b[nb-1] |= 0x80
+			}
+			terms[i].S, terms[i].SC = Hex(b), fmt.Sprintf("all-short-%dB", nb)
+		}
+	}
 	return terms
 }
 
